@@ -81,6 +81,10 @@ def build_case(r, idx):
         return r.choice([5, "s", True, None, 2.5])
 
     flag_docs = [rand_doc() for _ in range(n_flags)]
+    if n_flags >= 1 and r.randrange(5) == 0:
+        # the same document once more, after the others (A B A: the last one wins again / counts as one more value_N)
+        flag_docs.append(json.loads(json.dumps(flag_docs[0])))
+        n_flags += 1
     stdin_doc = rand_doc() if use_stdin else None
     invalid_json = r.randrange(25) == 0 and (n_flags > 0 or use_stdin)
     inputs = merge_inputs(stdin_doc, flag_docs)
@@ -275,7 +279,19 @@ def offline(ctx, res):
             args = [path]
         # every JSON layout of the same document is the same input: compact, spaced, pretty-printed over several lines
         # (with \n or \r\n), with blank lines / leading whitespace / a trailing newline
+        seen_layouts = {}
+
         def layout(d):
+            # a document that occurs again among the inputs is half of the time written with exactly the same text
+            # (the same flag given twice is two inputs), otherwise with an independent layout
+            key = json.dumps(d, sort_keys=False)
+            if key in seen_layouts and r.randrange(2) == 0:
+                return seen_layouts[key]
+            text = layout_once(d)
+            seen_layouts.setdefault(key, text)
+            return text
+
+        def layout_once(d):
             k = r.randrange(7)
             if k == 0:
                 return json.dumps(d)
